@@ -21,6 +21,7 @@ CHECKS = {
  "C14": ("exploration", "history monitor: generated well-/ill-nested ArrayBuilder command histories fed to the C++ API and to the extern-C entry points, value compared with the appended values after the documented unification; snapshot-immutability monitor re-reading structural dumps; forced buffer growth; ASan build", "held on the executions produced (lane L: ArrayBuilder; from_iter walk re-implemented in the harness; LayoutBuilder not yet driven)", "4 C14"),
  "C15": ("fault_enumeration", "runtime monitor with exhaustive fault injection: every truncation point and every single-position corruption of generated JSON texts classified by a strict RFC 8259 sequence reader (must-raise vs must-equal), writers' output re-parsed by an independent parser, reads/writes through files with buffer sizes that split tokens; ASan build", "for each base text every prefix and every listed corruption at every position is decided; base texts and layouts are sampled. RapidJSON is a stand-in here, so the repository-owned half (emission, SAX handler, multi-document/incomplete logic) is what is decided", "4 C15"),
  "C18": ("fault_enumeration", "runtime monitor with scripted doubles: ArrayGenerator/ArrayCache test doubles whose every call is journalled; lazy vs eager differential over generated layouts x wrapped node x cache policy (none/keep/forget/evict-with-probability/evict-at-nth-get/broken) x 1-4 operations; fault scripts (fail-then-ok, short, other form, ok-then-short) checked against the journal (no set after a failed generation, recovery); partitioned arrays vs Python list semantics for every index, a cube of range slices, repartitionings and tojson; ASan build", "held on the histories produced: cache-eviction points and fault scripts are enumerated per history in the thorough tier and sampled in the quick tier (lane L: C++ VirtualArray/IrregularlyPartitionedArray; the Python PartitionedArray and ak.virtual wrappers are lane P)", "4 C18"),
+ "C16": ("exploration", "round-trip monitors on the repository's own Python layer (src/awkward on the akext stand-in): to_buffers/from_buffers (form_key/key_format choices, raw-bytes containers, partitioned input), pickle, to_numpy/from_numpy (n-d, strided, masked, structured, strings) and to_arrow/from_arrow with the Arrow options, results read through the bridge's structural dump and, for Arrow, through pyarrow's own to_pylist", "held on the executions produced (lane P); conversions of datetime leaves, strided leaf buffers, union types through Arrow and a few other corners are recorded known findings and run in a capped stream", "4 C16"),
  "C17": ("exploration", "runtime monitor: library type strings vs the layout model's own type derivation, Content vs Form queries, Form JSON round trips, element/range type consistency; ASan build", "held on the executions produced (lane L)", "4 C17"),
  "C13": ("exploration", "differential runtime monitor: every compiled kernel specialisation vs its YAML Python definition run on index-recording typed lists; malloc-exact extents under ASan, canaries on the plain build, cross-specialisation comparison", "held on the accepted argument tuples of one run (all 690 specialisations reached)", "4 C13"),
 }
